@@ -106,6 +106,60 @@ def bond_event(a1, a2, rules=None):
     return ev
 
 
+def bondrule_event(a1, a2, rules):
+    """user bond-order rules: rules = [[type names], bond order]...; the order the library derives is judged by TLC
+    (RuleOrder2); every parameter function that accepts rules must use exactly that order"""
+    from mofun.rough_uff import guess_bond_order, bond_params, angle_params, dihedral_params
+    R = [(set(t), bo) for t, bo in rules]
+    ev = {"kind": "bondrule", "a": [a1, a2], "rules": [{"t": list(t), "bo2": int(round(bo * 2))} for t, bo in rules],
+          "bo2": 0, "num": "ok", "sym": "yes", "exc": "none"}
+    try:
+        o, e = quiet()
+        with o, e:
+            bo = guess_bond_order(a1, a2, R)
+            bo_r = guess_bond_order(a2, a1, R)
+            k, r = bond_params(a1, a2, bond_order_rules=R)
+            ang = angle_params(a1, a2, a1, bond_order_rules=R)
+            ang_x = angle_params(a1, a2, a1, bond_orders=[bo, bo])
+        ev["bo2"] = int(round(bo * 2))
+        if bo != bo_r:
+            ev["sym"] = "no"
+        rk, rr = ref_bond(a1, a2, bo)
+        if not (close(k, rk) and close(r, rr)):
+            ev["num"] = "bond parameters do not use the order the rules give"
+        elif len(ang) != len(ang_x) or ang[0] != ang_x[0] or not all(close(x, y) for x, y in zip(ang[1:], ang_x[1:])):
+            ev["num"] = "angle parameters do not use the orders the rules give"
+        else:
+            def tors(**kw):
+                try:
+                    with quiet()[0], quiet()[1]:
+                        return dihedral_params("H_", a1, a2, "H_", **kw)
+                except Exception as ex:
+                    return "raised " + type(ex).__name__
+            t1, t2 = tors(bond_order_rules=R), tors(bond_order=bo)
+            same = (t1 == t2) if (t1 is None or t2 is None or isinstance(t1, str) or isinstance(t2, str)) else \
+                (t1[0] == t2[0] and tuple(t1[2:]) == tuple(t2[2:]) and close(t1[1], t2[1]))
+            if not same:
+                ev["num"] = "torsion parameters do not use the order the rules give"
+    except Exception as ex:
+        ev["exc"] = type(ex).__name__
+    return ev
+
+
+def rule_jobs(a1, a2, other):
+    """rule lists around the bond a1-a2 (other: a third type): exact pair, pair evaluated on the like-atom bonds, a rule
+    about another pair, first match wins, single-type rule"""
+    jobs = [("bondrule", a1, a2, [[[a1, a2], 2.5]]), ("bondrule", a2, a1, [[[a1, a2], 2.5]]),
+            ("bondrule", a1, a2, [[[a1, a2], 2.5], [[a1, a2], 3.0]]), ("bondrule", a1, a2, [[[a2, other], 3.0], [[a2, a1], 2.5]]),
+            ("bondrule", a1, a1, [[[a1], 2.5]])]
+    if a1 != a2:
+        jobs += [("bondrule", a1, a1, [[[a1, a2], 2.5]]), ("bondrule", a2, a2, [[[a1, a2], 2.5]]),
+                 ("bondrule", a1, a2, [[[a1], 2.5]]), ("bondrule", a1, a2, [[[a1], 2.5], [[a2], 3.0]])]
+    if other not in (a1, a2):
+        jobs += [("bondrule", a1, a2, [[[a1, other], 2.5]]), ("bondrule", a1, a2, [[[a1, a2, other], 2.5]])]
+    return jobs
+
+
 def angle_event(a1, a2, a3):
     from mofun.rough_uff import angle_params, guess_bond_order
     ev = {"kind": "angle", "a": [a1, a2, a3], "style": "", "b": 0, "n": 0, "num": "ok", "sym": "yes", "exc": "none"}
@@ -190,6 +244,8 @@ def _chunk(task):
     for j in jobs:
         if j[0] == "bond":
             out.append(bond_event(j[1], j[2]))
+        elif j[0] == "bondrule":
+            out.append(bondrule_event(j[1], j[2], j[3]))
         elif j[0] == "angle":
             out.append(angle_event(j[1], j[2], j[3]))
         elif j[0] == "torsion":
@@ -242,6 +298,11 @@ def run(prop, tier, replay=None):
         for a2 in core:
             for a3 in core[:7]:
                 jobs.append(("angle", a1, a2, a3))
+    # user bond-order rules: all pairs of the core types, plus sampled pairs
+    rp = [(a, b) for a in core for b in core] + rnd.sample(pairs, 150 if tier == "quick" else 3000)
+    for a, b in rp:
+        jobs += rule_jobs(a, b, rnd.choice(core))
+    out.notes["rule_pairs"] = len(rp)
     centres = [t for t in names if len(t) > 2 and t[2] in "32R1"]
     cp = [(a, b) for a in centres for b in centres]
     tp = pairs if tier == "thorough" else cp + rnd.sample(pairs, 1500)
@@ -258,7 +319,7 @@ def run(prop, tier, replay=None):
     out.evaluations = len(events)
     # uniform shapes for TLC
     for ev in events:
-        for k, v in (("bo2", 0), ("num", "ok"), ("sym", "yes"), ("exc", "none"), ("style", ""), ("b", 0), ("n", 0), ("def", ""), ("d", 0), ("rule", "")):
+        for k, v in (("bo2", 0), ("rules", []), ("num", "ok"), ("sym", "yes"), ("exc", "none"), ("style", ""), ("b", 0), ("n", 0), ("def", ""), ("d", 0), ("rule", "")):
             ev.setdefault(k, v)
     verdicts = shard_validate("Trace_Uff", TRACE_CFG, events, shards=14, workers=1, tag="val-C18", extra=g)
     out.traces = len(events)
